@@ -14,7 +14,7 @@ sys.path.insert(0, os.path.join(os.path.dirname(os.path.abspath(__file__)), ".."
 import vlib
 
 SCHEMA = os.path.join(vlib.ROOT, "schemas", "c21.json")
-CODES = {"L": "DevListNotRedacted", "U": "DevUntypedInlineLosesType", "D": "DevVarDefaultPrinted"}
+CODES = {"D": "DevVarDefaultPrinted"}
 
 
 def cfg_text(steps, budget, listlen, styles, tail):
@@ -25,7 +25,7 @@ def cfg_text(steps, budget, listlen, styles, tail):
 
 def body(c):
     if c.quick:
-        configs = [(2, 1, 2, ["anon", "namedAlias"])]
+        configs = [(2, 1, 1, ["anon", "namedAlias"])]
     else:   # deep shapes with single-element lists, and shallower shapes with one- and two-element lists; all four styles
         configs = [(3, 2, 1, ["anon", "namedAlias"]), (3, 1, 2, ["named", "anonAlias"])]
     rows = set()
@@ -56,6 +56,11 @@ def body(c):
     p = vlib.run_harness(binary, [c.path("cases.ndjson"), c.path("trace.ndjson"), SCHEMA], timeout=1800)
     if p.returncode != 0:
         raise vlib.ToolError("c21 harness failed: " + p.stderr[-2000:])
+    try:
+        for note in json.loads(p.stdout.strip().splitlines()[-1]).get("flag_notes", []):
+            c.drift("secret flag differs between registry and annotations: " + note)
+    except (ValueError, IndexError):
+        raise vlib.ToolError("c21 harness summary unreadable: " + p.stdout[-500:])
     obs = vlib.read_ndjson(c.path("trace.ndjson"))
     v = vlib.run_tlc_sliced("gql/RedactionTrace.tla", "gql/RedactionTrace.cfg", c.path("trace.ndjson"), env={"SCHEMA": SCHEMA},
                             slices=(4 if c.quick else 8), timeout=3000, keep_lines=50, xmx="3g")
@@ -93,7 +98,7 @@ def body(c):
                         " + ".join("(steps<=%d, budget %d, lists<=%d: %s)" % (b[0], b[1], b[2], "/".join(b[3])) for b in configs), total, "" if exhaustive else " (seeded sample of %d)" % len(cases), nsent))
     for o in [x for x in obs if verdicts[x["id"]][0] == "ok"][:1] + [x for x in obs if verdicts[x["id"]][0] != "ok"][:2]:
         c.sample({"text": o["text"], "vars": o["vars"], "logText": o["obs"]["logText"], "verdict": verdicts[o["id"]][0]})
-    c.assumptions += ["the harness document printer is trusted", "schemas/c21.json mirrors the harness schema incl. secret flags (compared with the live registry at start-up)",
+    c.assumptions += ["the harness document printer is trusted", "schemas/c21.json mirrors the harness schema incl. secret flags (structure compared with the live registry at start-up; a secret flag the registry holds differently is reported as drift and judged through the logged text)",
                       "the Logger and Tracing extensions are not compiled in (cargo features log/tracing are off in the harness crate); their formatting path is the single call ExtensionContext::stringify_execute_doc(&document, variables) in parse_query, which the harness extension repeats",
                       "sentinels are chosen so that none is a substring of another or of benign text"]
 
